@@ -6,7 +6,8 @@
 
     * [convx c] (built command): as [conv c], but an argument may have [require_equals], a value
       terminator, and -- unless it is a positional -- [allow_hyphen_values] / [allow_negative_numbers].
-      Still excluded: [last], [trailing_var_arg], hyphen values on positionals.
+      Fourth pass: positionals may be [last(true)] / [trailing_var_arg] (the tails are in UnparseXTrail.v).
+      Still excluded: hyphen values on positionals.
     * [wfx_items c pst pos its]: as [wf_items], with per occurrence
       - an option with [require_equals] is only spelled [--o=v] / [-o=v] (clusters [-abco=v] included);
       - a separate value is not the option's (or the positional's) terminator;
@@ -18,7 +19,7 @@
       ([loop_terminator_x], [loop_items_term_x], [gmw_items_term_x]). *)
 From ClapModel Require Import Base.Bytes Base.Machine Base.Utf8 Lex.OsStrExtModel.
 From ClapModel Require Import Parse.Cmd Parse.Build Parse.Valid Parse.Matcher Parse.Errors Parse.Validator Parse.Parser.
-From ClapModel Require Import ParseProofs.Actions ParseProofs.Unparse.
+From ClapModel Require Import ParseProofs.Actions ParseProofs.Unparse ParseProofs.Escape.
 From Coq Require Import ZArith List Bool.
 From RecordUpdate Require Import RecordSet.
 Import RecordSetNotations.
@@ -28,12 +29,15 @@ Open Scope N_scope.
 Section XSem.
 Variable c : cmd.
 
+(** fourth pass: [last(true)] and [trailing_var_arg] are allowed on positionals (an option never has them);
+    a multiple positional below the highest index is allowed when the last positional is [last(true)]
+    ([low_index_mults_any], Escape.v, is the parser's own test: the look-ahead is then switched off) *)
 Definition convx_arg (a : arg) : bool :=
-  negb (a_last a) && negb (a_tva a)
+  (is_some (a_index a) || (negb (a_last a) && negb (a_tva a)))
   && (negb (is_some (a_index a)) || (negb (a_hyphen a) && negb (a_negnum a))).
 Definition convx : bool :=
   assert_app c && negb (is_set s_sub_precedence c) && forallb convx_arg (c_args c)
-  && negb (is_set s_allow_missing_pos c) && negb (low_index_multiple c).
+  && negb (is_set s_allow_missing_pos c) && negb (low_index_mults_any c).
 
 (** a token [-<number>] as [parse_short_arg] sees it *)
 Definition negnum_tok (v : bytes) : bool :=
@@ -62,9 +66,12 @@ Definition wfx_tail (t : ctail) : bool :=
   | TEq o v => short_ok o && is_opt (get_short c o)
   | TSep o vs => short_ok o && sepx_ok (get_short c o) vs
   end.
+(** a run of positional values BEFORE [--]: not for a [last(true)] positional (only reachable after [--]) nor
+    for a [trailing_var_arg] one (its run is a tail of the level: UnparseXTrail.v) *)
 Definition posx_ok (pst : pstate_t) (o : option arg) (vs : list bytes) : bool :=
   pos_ok pst o vs
-  && match o with Some a => forallb (fun v => negb (check_terminator a v)) vs | None => false end.
+  && match o with Some a => forallb (fun v => negb (check_terminator a v)) vs && negb (a_last a) && negb (a_tva a)
+                | None => false end.
 Definition wfx_item (pst : pstate_t) (pos : N) (it : item) : bool :=
   forallb (nosub c) (firstn 1 (render_item it)) &&
   match it with
